@@ -337,14 +337,21 @@ class EdtInterp(ResultInterp):
                 out.expr = ex
                 return out
             return DArr(a[0].dtype, ex)
+        def emit(out, dtype, ex):
+            # ufunc result written into `out` (its dtype is kept) or returned as a new array
+            if isinstance(out, DArr):
+                out.expr = ex
+                return out
+            return DArr(dtype, ex)
+
         if name in ("numpy.square",) and a and isinstance(a[0], DArr):
-            return DArr(a[0].dtype, self._square(a[0], node))
-        if name in ("numpy.power",) and len(a) == 2 and isinstance(a[0], DArr) and a[1] == 2:
-            return DArr(a[0].dtype, self._square(a[0], node))
+            return emit(a[1] if len(a) > 1 else kwargs.get("out"), a[0].dtype, self._square(a[0], node))
+        if name in ("numpy.power",) and len(a) >= 2 and isinstance(a[0], DArr) and a[1] == 2:
+            return emit(a[2] if len(a) > 2 else kwargs.get("out"), a[0].dtype, self._square(a[0], node))
         if name in ("numpy.add.reduce", "numpy.sum") and a and isinstance(a[0], DArr):
             return DArr(a[0].dtype, f"sum[{kwargs.get('axis', a[1] if len(a) > 1 else None)}]({a[0].expr})")
         if name == "numpy.sqrt" and a and isinstance(a[0], DArr):
-            return DArr("f64", f"sqrt({a[0].expr})")
+            return emit(a[1] if len(a) > 1 else kwargs.get("out"), "f64", f"sqrt({a[0].expr})")
         if name in ("numpy.linalg.norm",) and a and isinstance(a[0], DArr):
             return DArr("f64", f"sqrt(sum[{kwargs.get('axis')}](({a[0].expr})^2))")
         return super().external_call(name, args, kwargs, node)
